@@ -145,8 +145,10 @@ pub fn generate(
     let binary_search_fn = if search_tables.is_empty() {
         quote!()
     } else {
+        let binary_search_fn_name = binary_search_fn_name(ctx.lexer_name());
         quote!(
-            fn binary_search(c: char, table: &[(char, char)]) -> bool {
+            #[allow(non_snake_case)]
+            fn #binary_search_fn_name(c: char, table: &[(char, char)]) -> bool {
                 table
                     .binary_search_by(|(start, end)| match c.cmp(start) {
                         std::cmp::Ordering::Greater => {
@@ -173,6 +175,7 @@ pub fn generate(
                 .map(|(start, end)| quote!((#start, #end)))
                 .collect();
             quote!(
+                #[allow(non_upper_case_globals)]
                 static #ident: [(char, char); #n_ranges] = [
                     #(#pairs),*
                 ];
@@ -613,8 +616,9 @@ fn generate_state_char_arms(
     for (StateIdx(next_state), ranges) in state_ranges.into_iter() {
         let guard = if ranges.len() > MAX_GUARD_SIZE {
             let binary_search_table_id = ctx.add_search_table(ranges);
+            let binary_search_fn = binary_search_fn_name(ctx.lexer_name());
 
-            quote!(binary_search(x, &#binary_search_table_id))
+            quote!(#binary_search_fn(x, &#binary_search_table_id))
         } else {
             let range_checks: Vec<TokenStream> = ranges
                 .into_iter()
@@ -736,6 +740,11 @@ fn generate_semantic_action_fns(
         .collect();
 
     quote!(#(#fns)*)
+}
+
+// Generated items are prefixed with the lexer name to allow multiple lexers in the same module.
+fn binary_search_fn_name(lexer_name: &syn::Ident) -> syn::Ident {
+    syn::Ident::new(&format!("{}_BINARY_SEARCH", lexer_name), Span::call_site())
 }
 
 fn right_ctx_fn_name(lexer_name: &syn::Ident, idx: &RightCtxIdx) -> syn::Ident {
@@ -910,8 +919,9 @@ fn generate_right_ctx_state_char_arms(
     for (StateIdx(next_state), ranges) in state_ranges.into_iter() {
         let guard = if ranges.len() > MAX_GUARD_SIZE {
             let binary_search_table_id = ctx.add_search_table(ranges);
+            let binary_search_fn = binary_search_fn_name(ctx.lexer_name());
 
-            quote!(binary_search(x, &#binary_search_table_id))
+            quote!(#binary_search_fn(x, &#binary_search_table_id))
         } else {
             let range_checks: Vec<TokenStream> = ranges
                 .into_iter()
@@ -929,8 +939,9 @@ fn generate_right_ctx_state_char_arms(
     if !accept_ranges.is_empty() {
         let guard = if accept_ranges.len() > MAX_GUARD_SIZE {
             let binary_search_table_id = ctx.add_search_table(accept_ranges.into_iter().collect());
+            let binary_search_fn = binary_search_fn_name(ctx.lexer_name());
 
-            quote!(binary_search(x, &#binary_search_table_id))
+            quote!(#binary_search_fn(x, &#binary_search_table_id))
         } else {
             let range_checks: Vec<TokenStream> = accept_ranges
                 .into_iter()
